@@ -161,7 +161,14 @@ pub fn auto_broker(peer: Peer, cfg: AutoConfig, stop: Arc<AtomicBool>, seen: Arc
                 }
                 (10, 31) => None,
                 (10, 40) => {
-                    std::thread::sleep(Duration::from_millis(cfg.step_delay_ms + cfg.open_ok_delay_ms));
+                    // (interruptible: a very long delay = "never answers")
+                    let until = Instant::now() + Duration::from_millis(cfg.step_delay_ms + cfg.open_ok_delay_ms);
+                    while Instant::now() < until && !stop.load(Ordering::SeqCst) {
+                        std::thread::sleep(Duration::from_millis(5));
+                    }
+                    if stop.load(Ordering::SeqCst) {
+                        return;
+                    }
                     if cfg.tail.is_empty() {
                         Some(open_ok())
                     } else {
